@@ -738,6 +738,37 @@ def _build_unit(spec, repo=REPO):
             "gen_start": gstart, "gen_end": gstart + len(gen), "gen_text": gen, "src_text": itext,
             "kind": item.kind, "name": item.name,
         })
+    # constants: a top-level `const NAME: T = EXPR;` of the same source file that an extracted item mentions is copied
+    # verbatim as well (a named constant is part of the code that runs; without it the unit would not compile)
+    have_ = "".join(parts)
+    for src_, (text_, _items) in list(srcs.items()):
+        consts_ = rsx.top_consts(text_)
+        if not consts_:
+            continue
+        used_ = set()
+        for rec in g.items:
+            if rec["src"] == src_:
+                used_ |= {t_.text for t_ in rsx.sig_tokens(rsx.lex(rec["src_text"])) if t_.kind == "ident"}
+        todo_ = [n_ for n_ in consts_ if n_ in used_]
+        done_ = set()
+        while todo_:
+            n_ = todo_.pop()
+            if n_ in done_ or re.search(r"\bconst\s+%s\b" % re.escape(n_), have_):
+                continue
+            done_.add(n_)
+            a_, b_ = consts_[n_]
+            ctext = text_[a_:b_]
+            for t_ in rsx.sig_tokens(rsx.lex(ctext)):
+                if t_.kind == "ident" and t_.text in consts_ and t_.text not in done_:
+                    todo_.append(t_.text)
+            l0 = text_.count("\n", 0, a_) + 1
+            hdr = "// ---- const %s :: %s (line %d; copied because an extracted item mentions it)\n" % (src_, n_, l0)
+            gstart = off + len(hdr) + len("pub ")
+            parts.append(hdr + "pub " + ctext + "\n\n")
+            off += len(hdr) + len("pub ") + len(ctext) + 2
+            g.items.append({"path": "const " + n_, "src": src_, "src_lines": [l0, l0], "src_start_off": a_,
+                            "sha256": hashlib.sha256(ctext.encode()).hexdigest(), "gen_start": gstart, "gen_end": gstart + len(ctext),
+                            "gen_text": ctext, "src_text": ctext, "kind": "const", "name": n_})
     for chk in spec.get("syntactic", []):
         kind, rest = chk.split(" ", 1)
         f = [x.strip() for x in rest.split(" :: ")]
@@ -968,7 +999,7 @@ def is_hint_failure(f):
     """A failed `assert` that the sidecar / a preamble injected and that carries no property tag cNN(..) is a proof
     *hint*: its failure says the proof script no longer fits the code (undecided), not that a property is violated.
     Deciding internal obligations are written assert(cNN(..)); asserts of the source itself are obligations."""
-    if f["message"] != "assertion failed":
+    if f["message"] not in ("assertion failed", "precondition not satisfied"):
         return False
     prim = [s_ for s_ in f["spans"] if s_["primary"]] or f["spans"]
     if not prim:
@@ -976,6 +1007,12 @@ def is_hint_failure(f):
     where = (prim[0].get("origin") or {}).get("where") or ""
     if where.startswith("source"):
         return False
+    if f["message"] == "precondition not satisfied":
+        # the call is in injected proof text (a lemma invoked by the sidecar / a preamble): the lemma's hypothesis no
+        # longer fits this tree -- a proof-script failure, unless the clause it failed carries a property tag
+        if not (where.startswith("contract") or where.startswith("preamble")):
+            return False
+        return not any(re.search(r"\bc\d\d\(", s_["text"] or "") for s_ in f["spans"])
     return re.search(r"\bc\d\d\(", prim[0]["text"]) is None
 
 
